@@ -37,6 +37,8 @@ func init() {
 		"c20replay":   c20Replay,
 		"c09replay":   c09Replay,
 		"c09big":      c09Big,
+		"c13replay":   c13Replay,
+		"c13lookup":   c13Lookup,
 	}})
 }
 
